@@ -36,6 +36,7 @@ import (
 	"sort"
 	"strings"
 	"sync"
+	"sync/atomic"
 	"testing"
 	"unsafe"
 
@@ -161,6 +162,7 @@ type checker struct {
 	supplied rootDigests
 	storage  rootDigests
 	inst     rootDigests
+	once     map[string]bool // leaves below a sync.Once-holding struct (first initialisation accepted)
 }
 
 func (ck *checker) digestOneSupplied(su *world.Supplied) map[string]string {
@@ -218,6 +220,12 @@ func (ck *checker) digestOneInst(i *world.Inst, stop map[unsafe.Pointer]string, 
 	d.Stop = own
 	d.Root("inst:"+i.Name, &i.Obj)
 	ck.s.st.merge(d)
+	if ck.once == nil {
+		ck.once = map[string]bool{}
+	}
+	for k := range d.OnceInit {
+		ck.once[k] = true
+	}
 	return d.Leaves
 }
 
@@ -282,6 +290,8 @@ func allDiffs(before, after rootDigests) (roots []string, rendered map[string][]
 	return
 }
 
+var onceAccepted atomic.Int64
+
 var instField = regexp.MustCompile(`^(?:\.\*)?\.([A-Za-z_][A-Za-z0-9_]*)`)
 
 // frame compares all digests with the ones taken before the step, adopts the new
@@ -329,6 +339,26 @@ func (ck *checker) frame() []*finding {
 		fs = append(fs, &finding{"hidden-write", "op.DeviceAuthorizationState", "storage-owned state changed by the library: " + strings.Join(head(ren[r], 4), "; ")})
 	}
 	in := ck.digestInsts()
+	// a leaf below a struct that holds a sync.Once going from its zero value (or from absence) to a
+	// value is that Once's lazy initialisation, not an unsynchronised write: adopt it silently
+	for r, a := range in {
+		b := ck.inst[r]
+		if b == nil {
+			continue
+		}
+		paths, _ := world.Diff(b, a)
+		for _, p := range paths {
+			old, had := b[p]
+			if ck.once[p] && (!had || world.ZeroLeaf(old)) {
+				if v, ok := a[p]; ok {
+					b[p] = v
+				} else {
+					delete(b, p)
+				}
+				onceAccepted.Add(1)
+			}
+		}
+	}
 	roots, ren = allDiffs(ck.inst, in)
 	for _, r := range roots {
 		cls := ck.w.Inst(r).Kind + ".?"
@@ -792,6 +822,7 @@ func TestCheck(t *testing.T) {
 	c.Assume(
 		"reduction for 'any number of goroutines': a data race on library-owned state needs a write; if no operation of the alphabet writes package-level state, caller-supplied objects or instance fields outside a struct that holds its own mutex, no interleaving of these operations can race on such state (the mutex-guarded remoteKeySet is explored by C13)",
 		"fields of a struct that itself holds a sync.Mutex/RWMutex are assumed to be guarded by it and are not compared (listed under c20_info.mutex_guarded_struct_types_not_compared)",
+		"below a struct that itself holds a sync.Once, the first initialisation of a leaf (zero value or absent -> value) is taken to be that Once's lazy initialisation and accepted; every later change of such a leaf is judged like any other write (whether the lazily cached value is RIGHT for every later request is the business of the behavioural checks, e.g. C08/C19 with request-derived issuers)",
 		"channels, sync.*/atomic.* values and structs of third-party packages (otel tracer, chi router, gorilla/schema coders, html/template, slog, go-jose signer, x/oauth2 internals) are not walked: by pointer they are compared by identity, by value they are skipped (c20_info.not_walked_types)",
 		"funcs are digested by code pointer (two closures of the same literal are equal)",
 		"storage-owned device states are under the frame condition from the first storage action of the harness that touches them (approval / hand-out of the pointer), at the latest from the end of the operation that created them; writes the harness makes in the role of the storage owner are accepted leaf by leaf",
@@ -921,11 +952,45 @@ func raceWriters(report string) []string {
 		if i+1 < len(secs) {
 			end = secs[i+1][0]
 		}
-		if m := raceFrame.FindStringSubmatch(report[se[0]:end]); m != nil {
-			out = append(out, m[1])
+		if site := innermostRepoFrame(report[se[0]:end]); site != "" {
+			out = append(out, site)
 		}
 	}
 	return out
+}
+
+var (
+	raceFuncLine = regexp.MustCompile(`^\s+(\S+)\(\)\s*$`)
+	raceFileLine = regexp.MustCompile(`^\s+(/\S+\.go):\d+`)
+	funcN        = regexp.MustCompile(`\.func\d+(\.\d+)*$`)
+)
+
+// innermostRepoFrame walks the frames of one access top-down and returns the first that
+// belongs to the repository: by function name, or - for a repository closure that the
+// compiler inlined into a harness function, whose symbol then carries the harness package -
+// by the source file of the frame (/repo/pkg/...).
+func innermostRepoFrame(sec string) string {
+	lines := strings.Split(sec, "\n")
+	for i := 0; i+1 < len(lines); i++ {
+		fm := raceFuncLine.FindStringSubmatch(lines[i])
+		if fm == nil {
+			continue
+		}
+		if m := raceFrame.FindStringSubmatch(lines[i]); m != nil {
+			return m[1]
+		}
+		if fl := raceFileLine.FindStringSubmatch(lines[i+1]); fl != nil && strings.HasPrefix(fl[1], "/repo/pkg/") {
+			fn := fm[1]
+			if j := strings.LastIndex(fn, ")."); j >= 0 { // drop the harness receiver: keep "newRPHandlers.AuthURLHandler.func8"
+				fn = fn[j+2:]
+			}
+			if j := strings.Index(fn, "."); j >= 0 { // drop the harness function the closure was inlined into
+				fn = fn[j+1:]
+			}
+			return strings.TrimSuffix(strings.TrimPrefix(fl[1], "/repo/pkg/"), ".go") + "." + funcN.ReplaceAllString(fn, ".func")
+		}
+	}
+	return ""
 }
 
 func racePass(c *engine.Check) {
